@@ -35,7 +35,44 @@ rows, every end-of-file layout, LF / CRLF).  Expected: the keys, in file order, 
 'MOTIF ' (compared modulo surrounding whitespace), each value is a (4, w) tensor with
 value[c, i] == float(token c of row i) exactly.  n_motifs is not part of the statement and is
 not used.
+
+Audit extension (what the first version did not exercise or tolerated):
+
+  * "identically whether sequences and signals are supplied as files or as in-memory arrays" was only implied
+    by comparing every form with the same oracle - but the oracle accepts either outcome for a locus whose
+    window touches a chromosome end (MAY), so a file path and an array path that treat such a locus differently
+    both passed.  Now every pair of forms of one case must return the same rows (values, not dtypes), and
+    a form that raises while another one returns rows is a violation.
+  * the input objects (DataFrames, BED paths, in-memory dicts) are built once per case and shared by all
+    forms, and the first form is evaluated a second time at the end: an implementation that edits its inputs or
+    keeps state between calls shows up as a wrong second result (replayable: the case is self-contained).
+  * DataFrames only ever had the default RangeIndex, int64 columns, were passed in a list; now also reversed /
+    duplicate / unsorted-integer / string indexes, int32 columns, a tuple of sets, an empty (0-row) set among
+    several, 4 sets, exact duplicate loci within and across sets, zero-length loci (start == end).
+  * signals were non-negative integers only: track 4 holds negative and fractional (multiples of 1/8, exact in
+    float32) values; min_counts / max_counts are also placed at exactly 0 (target tracks with zero / negative
+    window sums), in_window / out_window 1-3 and jitter 9 are drawn more often.
+  * in-memory sequences were int8 only: now int8 / float32 / int64 / bool arrays and read-only numpy.memmap
+    (documented "numpy arrays or memory maps"), memmap signals; signals and in_signals may come from
+    different kinds (bigWig + dict) in one call; verbose=True (progress bar on a swallowed stderr).
+  * read_meme: motifs with a "log-odds matrix" block or rule / comment lines between the MOTIF line and the
+    letter-probability line (the MEME text output layout), widths 13-30, consecutive motifs of equal width
+    (buffer re-use), two more end-of-file layouts (whitespace-only last line with newline, tab without).
+
+Still not asserted (see above) and unchanged: the "filter, then interleave" / "interleave, then filter" order
+alternative with `chroms`, the empty selection, out_window > in_window with in_signals only.
+
+POSSIBLE DEFECT (kept behind CHECK_UNNAMED_COLUMNS = False, not evaluated):
+    extract_loci selects the first three DataFrame columns by position (df.iloc[:, [0, 1, 2]]) but then
+    concatenates the sets by column NAME and filters on df['chrom'].  Input:
+        a = pandas.DataFrame({'a': ['c'], 'b': [20], 'c': [30]});  b = pandas.DataFrame({'chrom': ['c'], 'start': [40], 'end': [44]})
+        extract_loci([a, b], {'c': ohe_4x100}, in_window=4)      -> ValueError: too many values to unpack (expected 3)
+        extract_loci(a, {'c': ohe_4x100}, chroms=['c'], in_window=4) -> KeyError: 'chrom'
+    (a alone without chroms works).  The statement does not mention column names, the docstring only says "three
+    columns: the chromosome, the start, and the end", so this is recorded, not asserted.
 """
+import contextlib
+import io
 import os
 import random
 import shutil
@@ -49,14 +86,21 @@ import torch
 from tangermeme.io import extract_loci, read_meme
 
 SCOPE = {
-    'quick': 'extract_loci: 12 seeded worlds (2-4 chromosomes of 60-300 bp, lower-case and N runs, 4 integer signal tracks) x 60 '
-             'seeded cases each: in/out windows 1-40 (odd/even, in <, =, > out), jitter 0-5, 1-3 locus sets of 1-12 loci '
-             '(DataFrame or BED file) with loci placed at random and with the union window at -1, 0, +1 of both chromosome '
-             'ends, chroms None or a subset, 0-3 signals, 0-2 in_signals, min/max counts at observed sums (incl. equality), '
-             'target_idx, n_loci caps; every case with (FASTA, bigWig), (dict, dict) and one mixed form; read_meme: 600 '
-             'generated files + every combination of 6 separator layouts x 7 end-of-file layouts x LF/CRLF on 2-motif files',
+    'quick': 'extract_loci: 12 seeded worlds (2-4 chromosomes of 60-300 bp, lower-case and N runs, 5 signal tracks: 4 integer, 1 with '
+             'negative and fractional values) x 60 seeded cases each: in/out windows 1-40 (odd/even, in <, =, > out, 1-3 over-weighted), '
+             'jitter 0-9, 1-4 locus sets of 0-12 loci (DataFrame with default / reversed / duplicate / unsorted / string index, int64 or '
+             'int32 columns, or BED file; list, tuple or bare) with loci placed at random and with the union window at -1, 0, +1 of both '
+             'chromosome ends, exact duplicate loci, zero-length loci, chroms None or a subset, 0-3 signals, 0-2 in_signals, min/max '
+             'counts at observed sums (incl. equality) and at exactly 0, target_idx, n_loci caps, verbose; every case with (FASTA, bigWig), '
+             '(dict, dict), one mixed form (incl. bigWig signals + dict in_signals), one memmap / other-dtype in-memory form and a '
+             'repeated call on the same input objects; all forms of a case must return identical rows; read_meme: 600 generated files '
+             '(widths 1-30, log-odds / comment blocks before the matrix) + every combination of 6 separator layouts x 9 end-of-file '
+             'layouts x LF/CRLF on 2-motif files',
     'thorough': 'extract_loci: 60 worlds x 100 cases, same generators; read_meme: 8000 generated files + the full layout grid on 1-, 2- and 3-motif files',
 }
+
+# see POSSIBLE DEFECT in the module docstring; when True, every second DataFrame gets columns named ('a', 'b', 'c')
+CHECK_UNNAMED_COLUMNS = False
 
 MAX_PER_FINDING = 20
 
@@ -77,7 +121,7 @@ def _tmpdir():
 # ----------------------------------------------------------------------------------------------
 
 CHROM_NAMES = ['chr1', 'chr2', 'chr3', 'chrX', 'chrM', 'scaffold_7']
-N_TRACKS = 4
+N_TRACKS = 5
 _WORLDS = {}
 
 
@@ -107,18 +151,44 @@ class World:
             t3 = [(p * 7 + ci) % 13 for p in range(L)]
             for t, v in enumerate((t0, t1, t2, t3)):
                 self.sig[t][c] = v
+        # track 4: negative and fractional values (multiples of 1/8: exact in float32, so the bigWig holds
+        # exactly these numbers and window sums are exact), with runs of zeros
+        for ci, c in enumerate(self.chroms):
+            L = len(self.seq[c])
+            self.sig[4][c] = [0.0 if rng.random() < 0.25 else rng.randint(-40, 80) / 8.0 for _ in range(L)]
         self.dir = None
+        self._ohe = None
 
     # in-memory forms (independent of tangermeme)
-    def ohe_dict(self):
-        d = {}
-        for c, s in self.seq.items():
-            a = numpy.zeros((4, len(s)), dtype=numpy.int8)
-            for p, ch in enumerate(s.upper()):
-                if ch in 'ACGT':
-                    a['ACGT'.index(ch), p] = 1
-            d[c] = a
-        return d
+    def ohe_dict(self, dtype=numpy.int8):
+        if self._ohe is None:
+            d = {}
+            for c, s in self.seq.items():
+                a = numpy.zeros((4, len(s)), dtype=numpy.int8)
+                for p, ch in enumerate(s.upper()):
+                    if ch in 'ACGT':
+                        a['ACGT'.index(ch), p] = 1
+                d[c] = a
+            self._ohe = d
+        return {c: a.astype(dtype) for c, a in self._ohe.items()}      # fresh arrays for every case
+
+    def memmaps(self, what):
+        """read-only numpy.memmap forms: what = 'seq' -> {chrom: (4, L) int8}, what = track number -> {chrom: (L,) float64}"""
+        d = self.files()
+        out = {}
+        for c in self.chroms:
+            L = len(self.seq[c])
+            if what == 'seq':
+                path, dt, shape, src = os.path.join(d, 'seq_%s.mm' % c), numpy.int8, (4, L), None
+            else:
+                path, dt, shape, src = os.path.join(d, 'sig%d_%s.mm' % (what, c)), numpy.float64, (L,), self.sig[what][c]
+            if not os.path.exists(path):
+                m = numpy.memmap(path, dtype=dt, mode='w+', shape=shape)
+                m[:] = self.ohe_dict()[c] if src is None else numpy.array(src, dtype=dt)
+                m.flush()
+                del m
+            out[c] = numpy.memmap(path, dtype=dt, mode='r', shape=shape)
+        return out
 
     def sig_dict(self, t, dtype):
         return {c: numpy.array(v, dtype=dtype) for c, v in self.sig[t].items()}
@@ -252,45 +322,105 @@ def _match(exp, rows, cap):
     return f(0, 0)
 
 
-def _call(case, w, seqform, sigform):
-    d = None
-    kw = {}
-    if seqform == 'fasta' or (sigform == 'bw' and (case['sig_tracks'] or case['insig_tracks'])) or 'bed' in case['set_forms']:
-        d = w.files()
-    # loci
-    loci = []
-    for k, (s, form) in enumerate(zip(case['sets'], case['set_forms'])):
-        df = pandas.DataFrame({'chrom': [l[0] for l in s], 'start': [int(l[1]) for l in s], 'end': [int(l[2]) for l in s]})
-        if form == 'bed':
-            path = os.path.join(d, 'loci_%d_%d.bed' % (case['cseed'], k))
-            extra = k % 2 == 1
-            with open(path, 'w') as f:
-                for c, a, b in s:
-                    f.write('%s\t%d\t%d%s\n' % (c, a, b, '\tpeak\t7' if extra else ''))
-            loci.append(path)
-        else:
-            if k % 2 == 0:
-                df['name'] = ['l%d' % i for i in range(len(df))]
-            loci.append(df)
-    if len(loci) == 1 and case.get('bare', False):
-        loci = loci[0]
-    seqs = os.path.join(d, 'genome.fa') if seqform == 'fasta' else w.ohe_dict()
-    dts = [numpy.float64, numpy.float32, numpy.int64]
+SEQ_DTYPES = {'int8': numpy.int8, 'float32': numpy.float32, 'int64': numpy.int64, 'bool': numpy.bool_}
 
-    def tracks(ts):
-        if not ts:
-            return None
-        if sigform == 'bw':
-            return [os.path.join(d, 't%d.bw' % t) for t in ts]
-        return [w.sig_dict(t, dts[(t + case['cseed']) % 3]) for t in ts]
-    kw = dict(signals=tracks(case['sig_tracks']), in_signals=tracks(case['insig_tracks']), chroms=case['chroms'],
+
+def _norm_form(form):
+    """(seqform, sigform[, insigform]); seqform: 'fasta' | 'dict' | 'memmap' | 'dict:<dtype>'; sig forms: 'bw' | 'dict' | 'memmap'"""
+    form = list(form)
+    if len(form) == 2:
+        form.append(form[1])
+    return form
+
+
+class _Inputs:
+    """the input objects of one case, built once and shared by every form evaluated for the case"""
+
+    def __init__(self, case, w):
+        self.case, self.w = case, w
+        self._loci = None
+        self._seq, self._sig = {}, {}
+
+    def loci(self):
+        if self._loci is not None:
+            return self._loci
+        case, w = self.case, self.w
+        d = w.files() if 'bed' in case['set_forms'] else None
+        loci = []
+        idxs = case.get('set_index') or [None] * len(case['sets'])
+        dt = numpy.int32 if case.get('int32') else numpy.int64
+        for k, (s, form) in enumerate(zip(case['sets'], case['set_forms'])):
+            if form == 'bed':
+                path = os.path.join(d, 'loci_%d_%d.bed' % (case['cseed'], k))
+                extra = k % 2 == 1
+                with open(path, 'w') as f:
+                    for c, a, b in s:
+                        f.write('%s\t%d\t%d%s\n' % (c, a, b, '\tpeak\t7' if extra else ''))
+                loci.append(path)
+            else:
+                df = pandas.DataFrame({'chrom': pandas.Series([l[0] for l in s], dtype=object) if not s else [l[0] for l in s],
+                                       'start': numpy.array([int(l[1]) for l in s], dtype=dt),
+                                       'end': numpy.array([int(l[2]) for l in s], dtype=dt)})
+                if k % 2 == 0:
+                    df['name'] = ['l%d' % i for i in range(len(df))]
+                if idxs[k] is not None:
+                    df.index = list(idxs[k])
+                if CHECK_UNNAMED_COLUMNS and k % 2 == 1:
+                    df.columns = ['a', 'b', 'c'] + list(df.columns[3:])
+                loci.append(df)
+        if len(loci) == 1 and case.get('bare', False):
+            loci = loci[0]
+        elif case.get('container') == 'tuple':
+            loci = tuple(loci)
+        self._loci = loci
+        return loci
+
+    def seqs(self, seqform):
+        if seqform not in self._seq:
+            w = self.w
+            if seqform == 'fasta':
+                self._seq[seqform] = os.path.join(w.files(), 'genome.fa')
+            elif seqform == 'memmap':
+                self._seq[seqform] = w.memmaps('seq')
+            else:
+                dtype = SEQ_DTYPES[seqform.split(':')[1]] if ':' in seqform else numpy.int8
+                self._seq[seqform] = w.ohe_dict(dtype)
+        return self._seq[seqform]
+
+    def track(self, t, sigform):
+        if (t, sigform) not in self._sig:
+            w = self.w
+            dts = [numpy.float64, numpy.float32, numpy.int64]
+            if sigform == 'bw':
+                v = os.path.join(w.files(), 't%d.bw' % t)
+            elif sigform == 'memmap':
+                v = w.memmaps(t)
+            else:
+                # track 4 is fractional: never as integers
+                v = w.sig_dict(t, dts[(t + self.case['cseed']) % (2 if t == 4 else 3)])
+            self._sig[(t, sigform)] = v
+        return self._sig[(t, sigform)]
+
+
+def _call(case, w, form, inp=None):
+    seqform, sigform, insigform = _norm_form(form)
+    inp = inp or _Inputs(case, w)
+    loci = inp.loci()
+    seqs = inp.seqs(seqform)
+
+    def tracks(ts, f):
+        return [inp.track(t, f) for t in ts] if ts else None
+    kw = dict(signals=tracks(case['sig_tracks'], sigform), in_signals=tracks(case['insig_tracks'], insigform), chroms=case['chroms'],
               in_window=case['in_window'], max_jitter=case['jitter'], min_counts=case['min_counts'],
               max_counts=case['max_counts'], target_idx=case['target_idx'], n_loci=case['n_loci'])
     if case['out_window'] is not None:
         kw['out_window'] = case['out_window']
+    if case.get('verbose'):
+        kw['verbose'] = True
     with warnings.catch_warnings():
         warnings.simplefilter('ignore')
-        return extract_loci(loci, seqs, **kw)
+        with contextlib.redirect_stderr(io.StringIO()):
+            return extract_loci(loci, seqs, **kw)
 
 
 def _describe(exp, rows, parts):
@@ -337,11 +467,17 @@ def check_loci(case):
     W_in = case['in_window'] + 2 * case['jitter']
     W_out = (case_o['out_window'] + 2 * case['jitter'])
     n_keep = min(sum(1 for e in exp if e[0] == 'KEEP') for exp in exps)
-    for seqform, sigform in case['forms']:
-        tag = '[%s/%s] ' % (seqform, sigform)
+    inp = _Inputs(case, w)
+    forms = [_norm_form(f) for f in case['forms']]
+    if case.get('repeat', False) and forms:
+        forms.append(forms[0])          # second call on the very same input objects
+    results = []                        # (tag, rows or None when the call raised)
+    for fi, form in enumerate(forms):
+        tag = '[%s%s] ' % ('/'.join(form), ', repeated call' if fi == len(case['forms']) else '')
         try:
-            res = _call(case, w, seqform, sigform)
+            res = _call(case, w, form, inp)
         except Exception as e:
+            results.append((tag, None, _exc(e)))
             if n_keep == 0:
                 continue        # nothing has to be kept: the result for an empty selection is not asserted
             out.append(tag + 'extract_loci raised %s although %d loci must be kept' % (_exc(e), n_keep))
@@ -364,6 +500,7 @@ def check_loci(case):
         Sl = S.to(torch.float64).tolist() if S is not None else None
         Il = I.to(torch.float64).tolist() if I is not None else None
         rows = [(Xl[r], Sl[r] if Sl is not None else [], Il[r] if Il is not None else []) for r in range(n)]
+        results.append((tag, rows, None))
         ok = False
         for exp in exps:
             e2 = [(st, ([[float(v) for v in a] for a in seq], [[float(v) for v in a] for a in sig], [[float(v) for v in a] for a in insig])
@@ -377,6 +514,19 @@ def check_loci(case):
                    if st != 'OMIT' else None) for st, locus, seq, sig, insig in exp]
             out.append(tag + 'returned rows are not the expected windows in input order (%d rows; %d KEEP, %d MAY, cap %s): %s'
                        % (n, sum(1 for e in exp if e[0] == 'KEEP'), sum(1 for e in exp if e[0] == 'MAY'), case['n_loci'], _describe(e3, rows, parts)))
+    # "identically whether sequences and signals are supplied as files or as in-memory arrays": the oracle above
+    # leaves the loci that touch a chromosome end open, the forms must still agree with each other on them
+    ref = next((r for r in results if r[1] is not None), None)
+    if ref is not None:
+        for tag, rows, err in results:
+            if rows is None:
+                if len(ref[1]) > 0:
+                    out.append('%sand %sdiffer: the first raised %s, the second returned %d rows' % (tag, ref[0], err, len(ref[1])))
+            elif rows != ref[1]:
+                k = next((i for i in range(min(len(rows), len(ref[1]))) if rows[i] != ref[1][i]), min(len(rows), len(ref[1])))
+                out.append('%sand %sreturn different rows for the same loci (%d vs %d rows, first difference at row %d: %s vs %s)'
+                           % (tag, ref[0], len(rows), len(ref[1]), k, _short(rows[k]) if k < len(rows) else 'none',
+                              _short(ref[1][k]) if k < len(ref[1]) else 'none'))
     return out
 
 
@@ -385,8 +535,8 @@ def _gen_loci_case(rng, gseed, cseed):
     ns = rng.choice([0, 1, 1, 2, 3])
     ni = rng.choice([0, 0, 0, 1, 2])
     rel = rng.choice(['<', '>', '=', 'any'])
-    iw = rng.randint(1, 40)
-    ow = rng.randint(1, 40)
+    iw = rng.randint(1, 40) if rng.random() < 0.8 else rng.randint(1, 3)
+    ow = rng.randint(1, 40) if rng.random() < 0.8 else rng.randint(1, 3)
     if rel == '<' and iw >= ow:
         iw, ow = min(iw, ow), max(iw, ow) + 1
     elif rel == '>' and iw <= ow:
@@ -395,16 +545,26 @@ def _gen_loci_case(rng, gseed, cseed):
         ow = iw
     if ns == 0 and ni > 0:
         ow = min(ow, iw)
-    jitter = rng.choice([0, 0, 0, 1, 2, 5])
+    jitter = rng.choice([0, 0, 0, 0, 1, 1, 2, 2, 5, 5, 9])
     sig_tracks = rng.sample(range(N_TRACKS), ns)
     insig_tracks = rng.sample(range(N_TRACKS), ni)
+    # count filters at exactly 0: a target track whose window sums are 0 / negative for some loci (tracks 0 and 4)
+    zero_filter = None
+    if ns > 0 and rng.random() < 0.15:
+        zero_filter = rng.choice(['max0', 'max0', 'min0', 'both0'])
+        t = 4 if zero_filter != 'max0' else rng.choice([0, 4])
+        sig_tracks = [t] + [x for x in sig_tracks if x != t][:ns - 1]
+        rng.shuffle(sig_tracks)
+        ow = rng.randint(1, 3)
+        if rel == '=':
+            iw = ow
     out_window = ow
     if ns == 0 and ni == 0 and rng.random() < 0.5:
         out_window = None if rng.random() < 0.5 else rng.choice([ow, 1000])
     eff_ow = ow if ns > 0 else None
     lo_off = max(iw // 2, (eff_ow // 2) if eff_ow else 0) + jitter
     hi_off = max(iw // 2 + iw % 2, (eff_ow // 2 + eff_ow % 2) if eff_ow else 0) + jitter
-    nsets = rng.choice([1, 1, 2, 2, 3])
+    nsets = rng.choice([1, 1, 1, 2, 2, 2, 3, 3, 4])
     sets = []
     for _ in range(nsets):
         s = []
@@ -419,20 +579,57 @@ def _gen_loci_case(rng, gseed, cseed):
             else:
                 mid = L + {'R-1': -1, 'R0': 0, 'R+1': 1}[kind] - hi_off
             mid = max(0, min(L - 1, mid))
-            ln = rng.randint(1, 30)
+            ln = rng.randint(1, 30) if rng.random() < 0.93 else 0        # zero-length locus: midpoint = start
             ln = min(ln, 2 * mid + 1)
             start = mid - ln // 2
             s.append([c, start, start + ln])
         sets.append(s)
+    # exact duplicates of a locus, in the same set and in another set: every occurrence is a row
+    if rng.random() < 0.3:
+        for _ in range(rng.randint(1, 3)):
+            src = rng.choice(sets)
+            dst = rng.choice(sets)
+            dst.insert(rng.randint(0, len(dst)), list(rng.choice(src)))
+    set_forms = [rng.choice(['df', 'bed']) for _ in sets]
+    # one empty set among several (a 0-row DataFrame; an empty BED file is not readable by pandas)
+    if nsets > 1 and rng.random() < 0.08:
+        k = rng.randrange(nsets)
+        sets[k] = []
+        set_forms[k] = 'df'
+    # DataFrame row labels are not positions
+    set_index = []
+    for s_, f_ in zip(sets, set_forms):
+        n = len(s_)
+        kind = rng.choice(['default', 'default', 'rev', 'dup', 'off', 'str']) if f_ == 'df' else 'default'
+        if kind == 'default':
+            set_index.append(None)
+        elif kind == 'rev':
+            set_index.append(list(range(n - 1, -1, -1)))
+        elif kind == 'dup':
+            set_index.append([rng.choice([0, 0, 1, 3]) for _ in range(n)])
+        elif kind == 'off':
+            set_index.append(rng.sample(range(0, 10 * n + 50), n))
+        else:
+            lab = ['r%d' % i for i in range(n)]
+            rng.shuffle(lab)
+            set_index.append(lab)
     chroms = None
     if rng.random() < 0.4:
         chroms = rng.sample(w.chroms, rng.randint(1, len(w.chroms) - 1))
         chroms = [c for c in w.chroms if c in chroms] if rng.random() < 0.5 else chroms
-    case = {'kind': 'loci', 'gseed': gseed, 'cseed': cseed, 'sets': sets, 'set_forms': [rng.choice(['df', 'bed']) for _ in sets],
+    case = {'kind': 'loci', 'gseed': gseed, 'cseed': cseed, 'sets': sets, 'set_forms': set_forms, 'set_index': set_index,
+            'int32': rng.random() < 0.2, 'container': rng.choice(['list', 'list', 'tuple']),
             'bare': rng.random() < 0.5, 'chroms': chroms, 'in_window': iw, 'out_window': out_window, 'jitter': jitter,
             'sig_tracks': sig_tracks, 'insig_tracks': insig_tracks, 'min_counts': None, 'max_counts': None, 'target_idx': 0,
-            'n_loci': None}
-    if ns > 0 and rng.random() < 0.6:
+            'n_loci': None, 'verbose': rng.random() < 0.1, 'repeat': True}
+    if zero_filter is not None:
+        case['target_idx'] = sig_tracks.index(4) if 4 in sig_tracks and zero_filter != 'max0' else \
+            next(i for i, t in enumerate(sig_tracks) if t in (0, 4))
+        if zero_filter in ('max0', 'both0'):
+            case['max_counts'] = rng.choice([0, 0, 0.0])
+        if zero_filter in ('min0', 'both0'):
+            case['min_counts'] = rng.choice([0, 0, 0.0])
+    elif ns > 0 and rng.random() < 0.6:
         case['target_idx'] = rng.randrange(ns)
         exp = _expected(case, w, _orders(case)[0])
         sums = sorted(sum(e[3][case['target_idx']]) for e in exp if e[0] != 'OMIT')
@@ -444,8 +641,11 @@ def _gen_loci_case(rng, gseed, cseed):
                 case['max_counts'] = rng.choice(sums) + rng.choice([0, 0, 1, -1, 0.5])
     if rng.random() < 0.35:
         case['n_loci'] = rng.randint(1, max(1, sum(len(s) for s in sets)))
-    mixed = rng.choice([('fasta', 'dict'), ('dict', 'bw')])
-    case['forms'] = [['fasta', 'bw'], ['dict', 'dict'], list(mixed)]
+    mixed = rng.choice([['fasta', 'dict', 'dict'], ['dict', 'bw', 'bw'], ['fasta', 'bw', 'dict'], ['dict', 'dict', 'bw'],
+                        ['fasta', 'dict', 'bw']])
+    other = rng.choice([['memmap', 'memmap', 'memmap'], ['memmap', 'bw', 'memmap'], ['dict:float32', 'dict', 'memmap'],
+                        ['dict:int64', 'memmap', 'dict'], ['dict:bool', 'dict', 'dict']])
+    case['forms'] = [['fasta', 'bw', 'bw'], ['dict', 'dict', 'dict'], mixed, other]
     return case
 
 
@@ -485,7 +685,8 @@ def _run_loci(rep, lim, budget_frac):
             nk = sum(1 for e in exp if e[0] == 'KEEP')
             sec = 'loci-%dsets-%s' % (len(case['sets']), 'sig' if case['sig_tracks'] else 'nosig')
             rep.case(('loci', cseed), nontrivial=nk > 0,
-                     sample={k: case[k] for k in ('gseed', 'sets', 'chroms', 'in_window', 'out_window', 'jitter', 'sig_tracks', 'min_counts', 'max_counts', 'n_loci')},
+                     sample={k: case[k] for k in ('gseed', 'sets', 'set_forms', 'set_index', 'chroms', 'in_window', 'out_window', 'jitter', 'sig_tracks',
+                                                  'min_counts', 'max_counts', 'n_loci', 'forms')},
                      section=sec)
             lim.report(v, case, None)
         _world(gseed).cleanup()
@@ -498,12 +699,14 @@ def _run_loci(rep, lim, budget_frac):
 # ----------------------------------------------------------------------------------------------
 
 SEPS = ['blank', 'blank2', 'url', 'blank+url', 'spaces', 'none']
-EOFS = ['nl', 'nonl', 'blank', 'blank2', 'url', 'url-nonl', 'spaces-nonl']
+EOFS = ['nl', 'nonl', 'blank', 'blank2', 'url', 'url-nonl', 'spaces-nonl', 'spaces', 'tab-nonl']
 HEADERS = ['full', 'min', 'compact']
 
 
 def _meme_text(spec):
     """spec: {'header', 'crlf', 'motifs': [{'name', 'rows': [[tok x4]], 'gap', 'letter', 'rowfmt', 'sep'}], 'eof'}
+    optional per motif: 'pre' = None | 'logodds' | 'rule' | 'logodds+blank': lines between the MOTIF line and the
+    letter-probability line, none of which starts with 'letter' (the MEME text output prints a log-odds matrix first)
     -> (text, expected [(key, rows)])"""
     lines = []          # each entry is a complete line without terminator
     h = spec['header']
@@ -522,6 +725,16 @@ def _meme_text(spec):
         if m['gap']:
             lines.append('')
         w = len(m['rows'])
+        pre = m.get('pre')
+        if pre in ('logodds', 'logodds+blank'):
+            lines.append('log-odds matrix: alength= 4 w= %d E= 1.0e-003' % w)
+            for r in m['rows']:
+                lines.append(' ' + '  '.join('%5d' % int(round(100 * float(t)) - 25) for t in r))
+            lines.append('-' * 40)
+            if pre == 'logodds+blank':
+                lines.append('')
+        elif pre == 'rule':
+            lines += ['-' * 40, '\tMotif %s position-specific probability matrix' % m['name'].split()[0], '-' * 40]
         lt = 'letter-probability matrix: alength= 4 w= %d' % w
         if m['letter'] == 'full':
             lt += ' nsites= 20 E= 0'
@@ -550,7 +763,7 @@ def _meme_text(spec):
     eof = spec['eof']
     tail_lines, final_nl = {'nl': ([], True), 'nonl': ([], False), 'blank': ([''], True), 'blank2': (['', ''], True),
                             'url': (['URL http://example.org/last'], True), 'url-nonl': (['URL http://example.org/last'], False),
-                            'spaces-nonl': (['  '], False)}[eof]
+                            'spaces-nonl': (['  '], False), 'spaces': (['   '], True), 'tab-nonl': (['\t'], False)}[eof]
     lines += tail_lines
     text = nl.join(lines) + (nl if final_nl else '')
     return text, expected
@@ -612,12 +825,17 @@ def _rand_rows(rng, w):
 def _gen_meme_spec(rng, nm=None, seps=None, eof=None, crlf=None, plain=False):
     nm = nm or rng.randint(1, 6)
     motifs = []
+    width = None
     for k in range(nm):
+        # widths: mostly 1-12, sometimes 13-30, and often the same as the previous motif (a re-used matrix buffer)
+        if width is None or rng.random() > 0.3:
+            width = rng.randint(1, 12) if rng.random() < 0.9 else rng.randint(13, 30)
         name = 'M%d_%s' % (k, ''.join(rng.choice('ABCDEFGHJK0123456789.') for _ in range(rng.randint(1, 6))))
         if rng.random() < 0.5:
             name += ' ' + rng.choice(['alt', 'GATA1', 'MA0035.1', 'x y'])
         motifs.append({'name': name, 'name_trail': '' if plain else rng.choice(['', '', ' ', '  ']),
-                       'rows': _rand_rows(rng, rng.randint(1, 12)),
+                       'rows': _rand_rows(rng, width),
+                       'pre': None if plain or rng.random() < 0.75 else rng.choice(['logodds', 'rule', 'logodds+blank']),
                        'gap': False if plain else rng.random() < 0.25,
                        'letter': rng.choice(['full', 'bare', 'e']),
                        'rowfmt': 'std' if plain else rng.choice(['std', 'plain', 'tab', 'trail', 'trailtab']),
